@@ -209,7 +209,22 @@ pub fn cases_malformed(prop: &str, tier: &str, rng: &mut Rng, stats: &mut Stats,
                 rec.truncate(48);
             }
             m.extend_from_slice(&rec);
-            m.extend((0..rng.range(0, 64)).map(|_| 0u8));
+            // either nothing behind the counts, or the first points really there (more than any
+            // pre-allocation cap) and the rest missing: a download cut short
+            let real_pts: usize = *rng.pick(&[0usize, 0, 1023, 1024, 1025, 2100]);
+            if real_pts > 0 && (npts as usize) > real_pts {
+                let parts_bytes = (per_part * nparts) as usize;
+                m.extend(std::iter::repeat(0u8).take(parts_bytes.min(1 << 16)));
+                if parts_bytes <= (1 << 16) {
+                    for q in 0..real_pts {
+                        m.extend_from_slice(&(q as f64).to_le_bytes());
+                        m.extend_from_slice(&1.5f64.to_le_bytes());
+                    }
+                    stats.hit("mut.partially-backed-counts");
+                }
+            } else {
+                m.extend((0..rng.range(0, 64)).map(|_| 0u8));
+            }
             stats.hit("mut.unbacked-counts");
             judge(out, &Case::Read { target: "generic".into(), shp: m.clone(), shx: None });
             // the same record reached through an index (random access and iteration)
